@@ -303,9 +303,6 @@ func (d *verifDumper) dump2(s SDF2) *VerifShape {
 		// the same observable as a MeshSDF2 over the original segments
 		n.Kind = "Mesh2"
 		for _, li := range x.mesh {
-			if li.line[0] == li.line[1] {
-				continue
-			}
 			n.Segs = append(n.Segs, *li.line)
 		}
 	case *FlatFlankCamSDF2:
